@@ -48,7 +48,7 @@ func init() {
 			type cfg struct{ nh, nn, pat, host int64 }
 			cfgs := []cfg{{1, 0, 2, 2}, {2, 0, 2, 2}, {0, 1, 2, 2}, {0, 1, 5, 2}, {1, 1, 2, 2}, {2, 1, 2, 2}, {0, 2, 2, 2}, {1, 2, 2, 2}, {1, 1, 1, 3}}
 			if tier == "thorough" {
-				cfgs = append(cfgs, cfg{2, 2, 2, 2}, cfg{2, 2, 5, 2}, cfg{2, 2, 1, 3}, cfg{3, 2, 2, 2}, cfg{2, 3, 2, 2}, cfg{0, 2, 5, 3})
+				cfgs = append(cfgs, cfg{2, 2, 2, 2}, cfg{3, 0, 2, 2}, cfg{3, 1, 2, 2}, cfg{0, 3, 2, 2}, cfg{1, 2, 1, 3}, cfg{0, 2, 5, 3}, cfg{1, 1, 5, 2})
 			}
 			for _, c := range cfgs {
 				jobs = append(jobs, Job{Pkg: "root", Func: "verifC02", Args: []int64{c.nh, c.nn, c.pat, c.host}})
